@@ -77,6 +77,7 @@ class Contract:
         self.self_check = True
         self.variants = None
         self.name = qualname
+        self.opts = {}
         self.apply_hook = None  # callable(S): ghost effects of a call when the contract is used as a summary
         self.exit_hook = None  # callable(S, outcome): extra obligations at unit exit (ghost ledgers, Inv)
         self.ok_exceptions = None  # exception class names allowed to escape without a raises clause
@@ -598,7 +599,9 @@ def run_unit(c: Contract, repo, opts=None):
         return outcome
 
     try:
-        results = explore(run, opts=opts)
+        o2 = dict(opts)
+        o2.update(c.opts)
+        results = explore(run, opts=o2)
     except Unsupported as e:
         res.unsupported.append(str(e))
         results = []
